@@ -227,8 +227,57 @@ def check(run, repo):
     run.check(isinstance(r, Obj) and get_public(I, r, 'reactants').items[0] is sp[kA], 'REF.parse', 'Reaction.from_string',
               'species list', 'a list of species is not accepted (%s)' % show(r), owner_fs.module, fn_fs)
 
+    ring_reader(run, repo, ci)
     balance(run, repo, ci)
     formulas(run, repo)
+
+
+def ring_reader(run, repo, ci):
+    """pmutt.io.ring.read_reactions: every line that holds the reaction delimiter is parsed with the delimiters and
+    the options of the call, the other lines are skipped, the order is kept"""
+    m = repo.module('pmutt.io.ring')
+    fn = m.functions.get('read_reactions')
+    if fn is None:
+        raise AnchorError('pmutt.io.ring.read_reactions not found')
+    run.fn('pmutt.io.ring.read_reactions')
+    for sd, rd in (('.', '>>'), ('+', '=')):
+        I = Interp(repo)
+        sp = named_species(I, [('A', 2), ('B', 3), ('C', 4), ('TS', 4)])
+        kA, kB, kC, kT = list(sp)
+        A, B, Cc, TSn = (SegStr.field(k, I.sym_strings[k][0], 'text') for k in (kA, kB, kC, kT))
+        X = SegStr.field('~X', 2, 'text')
+        lines = [SegStr.lit('Reactions generated by RING\n'),
+                 A + sd + '2' + B + rd + Cc + '\n',
+                 SegStr.lit('\n'),
+                 Cc + rd + TSn + rd + A + sd + B + '\n',
+                 A + rd + X + rd + B + '\n']
+        I.files['ring.txt'] = lines
+        kw = {'filename': 'ring.txt', 'species': DictV(dict(sp)), 'species_delimiter': sd, 'reaction_delimiter': rd}
+        out = I.call_function(m, fn, [], dict(kw))
+        label = 'delims=%r/%r' % (sd, rd)
+        # the last line names a transition state that is not in the dictionary: an error by default
+        run.check(isinstance(out, Raised) and out.exc == 'KeyError', 'PATH.unknown-species', 'io.ring.read_reactions',
+                  label + ' unknown transition state', '[%s] a line whose transition state is not in the species '
+                  'dictionary must raise KeyError by default, got %s' % (label, show(out, 80)), m, fn)
+        nw = len(I.warnings)
+        out = I.call_function(m, fn, [], dict(kw, raise_error=False, raise_warning=False))
+        rx = get_public(I, out, 'reactions') if isinstance(out, Obj) else None
+        ok = isinstance(rx, ListV) and len(rx) == 3 and len(I.warnings) == nw
+        why = 'result %s' % show(rx if rx is not None else out, 120)
+        if ok:
+            want = [([sp[kA], sp[kB]], [1, 2], [sp[kC]], [1], None), ([sp[kC]], [1], [sp[kA], sp[kB]], [1, 1], [sp[kT]]),
+                    ([sp[kA]], [1], [sp[kB]], [1], None)]
+            for r_, (wr, wrs, wp, wps, wt) in zip(rx.items, want):
+                gr, gp, gt = (get_public(I, r_, a_) for a_ in ('reactants', 'products', 'transition_state'))
+                grs, gps = get_public(I, r_, 'reactants_stoich'), get_public(I, r_, 'products_stoich')
+                ok = ok and gr.items == wr and gp.items == wp and (gt is None if wt is None else gt.items == wt) and \
+                    all(a_.eq(C(b_)) for a_, b_ in zip(grs.items + gps.items, wrs + wps))
+            why = 'the parsed reactions differ from the lines'
+        run.check(ok, 'REF.parse', 'io.ring.read_reactions', label,
+                  '[%s] three of the five lines hold the reaction delimiter: they must come back as three reactions, in '
+                  'order, parsed with the delimiters and options of the call (raise_error=False, raise_warning=False: '
+                  'the unknown transition state is dropped silently); %s' % (label, why), m, fn,
+                  sample='ring.read_reactions [%s]: 5 lines -> 3 reactions' % label)
 
 
 def balance(run, repo, ci):
@@ -301,6 +350,10 @@ def formulas(run, repo):
 
 R_ = 'pmutt/reaction/__init__.py'
 MUTANTS = [
+    {'name': 'RING reader parses with its default species delimiter', 'expect': ('REF.parse', 'ring.read_reactions'),
+     'edits': [('pmutt/io/ring.py', "                                       species_delimiter=species_delimiter,", "                                       species_delimiter='.',")]},
+    {'name': 'RING reader always raises on an unknown transition state', 'expect': ('REF.parse', 'ring.read_reactions'),
+     'edits': [('pmutt/io/ring.py', "                                       raise_error=raise_error,", "                                       raise_error=True,")]},
     {'name': 'transition state dropped only when the warning is raised', 'expect': ('PATH.unknown-species', 'from_string'),
      'edits': [(R_, '''                        warn(warn_msg, RuntimeWarning)
                     # Reinitialize without the transition state
